@@ -260,7 +260,30 @@ type IfaceShape struct {
 	F *int `cbor:"6,keyasint,omitempty" json:"f,omitempty"`
 }
 
+// PlainShape has mandatory fields of plain (non-pointer) kinds.
+type PlainShape struct {
+	Seq   uint64          `cbor:"1,keyasint" json:"sequence"`
+	Name  string          `cbor:"2,keyasint" json:"name"`
+	Flag  bool            `cbor:"3,keyasint" json:"flag"`
+	Arr   [2]int          `cbor:"4,keyasint" json:"arr"`
+	Inner struct{ X int } `cbor:"5,keyasint" json:"inner"`
+	Opt   int             `cbor:"6,keyasint,omitempty" json:"opt,omitempty"`
+}
+
+type EmbPlainShape struct {
+	PlainShape
+	G *string `cbor:"7,keyasint,omitempty" json:"g,omitempty"`
+}
+
+const nShapes = 7
+
 func newShape(kind int) any {
+	switch kind % nShapes {
+	case 5:
+		return &PlainShape{}
+	case 6:
+		return &EmbPlainShape{}
+	}
 	switch kind % 5 {
 	case 0:
 		return &FlatShape{}
@@ -285,6 +308,12 @@ func filledShape(kind int, a int64, b string, c []byte) any {
 	d := uint16(a)
 	e := a%2 == 0
 	g := int(a)
+	switch kind % nShapes {
+	case 5:
+		return &PlainShape{Seq: uint64(a), Name: b, Flag: e, Arr: [2]int{1, 2}}
+	case 6:
+		return &EmbPlainShape{PlainShape: PlainShape{Seq: uint64(a), Name: b, Arr: [2]int{3, 4}}, G: &b}
+	}
 	switch kind % 5 {
 	case 0:
 		return &f
@@ -676,4 +705,22 @@ func (c XSwComponent) MarshalCBOR() ([]byte, error) { //nolint:gocritic
 		return nil, errInjectedCodec
 	}
 	return xem.Marshal(c.SwComponent)
+}
+
+// XPtrClaims embeds the base claims type BY POINTER: the embedding-aware
+// helpers only merge by-value embedded structs, so this type has no
+// identifiable profile field and its registration must fail.
+type XPtrClaims struct {
+	*psatoken.P2Claims
+}
+
+type XPtrProfile struct{ N string }
+
+func (p XPtrProfile) GetName() string { return p.N }
+func (p XPtrProfile) GetClaims() psatoken.IClaims {
+	return &XPtrClaims{P2Claims: &psatoken.P2Claims{
+		Profile:          eatProfileOf("http://sim.example/psa/ptr"),
+		SwComponents:     &psatoken.SwComponents[*psatoken.SwComponent]{},
+		CanonicalProfile: p.N,
+	}}
 }
